@@ -91,6 +91,9 @@ var gens = []generator{
 	{file: "GbSlice.lean", src: "seqio/genbank.go (GenBankFields.Slice)", run: genGbSlice},
 	{file: "IoDelegateFacts.lean", src: "cmd/gts/io.go (the cache protocol: newIODelegate, TryCache, Write, Commit, Close as facts)", run: genIoDelegateFacts},
 	{file: "IoDelegate.lean", src: "cmd/gts/io.go (gtsCacheDir, newIODelegate, Commit, Write, Close, TryCache as functions over I/O primitives)", run: genIoDelegateFn},
+	{file: "ParsPrelude.lean", src: "(fixed prelude of the go-pars translator: checked slice operations, the result value, loops)", run: genParsPrelude},
+	{file: "Pars.lean", src: "the module directory of github.com/go-pars/pars (stack.go, state.go and the primitive parsers as functions)", run: genParsFns},
+	{file: "ParsFacts.lean", src: "the module directory of github.com/go-pars/pars (pin, inventory of what gts uses, the reached declarations as facts)", run: genParsFacts},
 }
 
 func writeIfChanged(path string, content []byte) (bool, error) {
@@ -112,6 +115,7 @@ func main() {
 	repo := flag.String("repo", "/repo", "root of the Go repository to read")
 	out := flag.String("out", "", "directory receiving the generated Lean files (lean/Gts/Gen)")
 	verbose := flag.Bool("v", false, "report every file")
+	flag.StringVar(&parsDirFlag, "pars", "", "directory of the pinned module github.com/go-pars/pars (default: `go list -m` in -repo, offline)")
 	flag.Parse()
 	if *out == "" {
 		fmt.Fprintln(os.Stderr, "go2lean: -out is required")
